@@ -18,6 +18,8 @@
 #pragma once
 
 #include <fcntl.h>
+#include <signal.h>
+#include <sys/time.h>
 #include <stdarg.h>
 #include <stdint.h>
 #include <stdio.h>
@@ -292,7 +294,9 @@ struct Ctx {
   // survive the death of the process (sanitizer abort, signal).
   char* journal_map = nullptr;
   size_t journal_cap = 0;
+  volatile uint64_t journal_seq = 0; // bumped on every journal entry; the per-case CPU watchdog looks at it
   void journal(const std::string& text) {
+    journal_seq = journal_seq + 1;
     if (journal_fd < 0) return;
     size_t need = text.size() + 16;
     if (need > journal_cap) {
@@ -649,6 +653,47 @@ inline void random_search(const SubCheck& sc, int cases) {
   }
 }
 
+// ---------------------------------------------------------------- per-case CPU watchdog
+//
+// "Terminates" is part of several properties, and a case that never returns would otherwise only show up as a shard
+// that ran out of budget. The watchdog counts CPU time (ITIMER_PROF), not wall-clock time, so machine load cannot
+// trigger it: when one journal entry (one case, or one block of a hot loop) has consumed more than the limit
+// (default 60 s of CPU, VERIF_CASE_CPU_LIMIT overrides) the process reports VERIF-ABORT: case-cpu-limit and exits;
+// the driver attributes the journalled case like any other crash.
+inline volatile uint64_t g_wd_last_seq = 0;
+inline volatile int g_wd_ticks = 0;
+inline int g_wd_limit_ticks = 12;
+inline void watchdog_tick(int) {
+  uint64_t seq = ctx().journal_seq;
+  if (seq != g_wd_last_seq) {
+    g_wd_last_seq = seq;
+    g_wd_ticks = 0;
+    return;
+  }
+  g_wd_ticks = g_wd_ticks + 1;
+  if (g_wd_ticks >= g_wd_limit_ticks) {
+    static const char msg[] = "\nVERIF-ABORT: case-cpu-limit (one case consumed more CPU time than the per-case limit: hang or runaway loop)\n";
+    (void)!write(2, msg, sizeof(msg) - 1);
+    _exit(78);
+  }
+}
+inline void start_watchdog() {
+  int limit_s = 60;
+  if (const char* e = getenv("VERIF_CASE_CPU_LIMIT")) limit_s = atoi(e);
+  if (limit_s <= 0) return;
+  g_wd_limit_ticks = std::max(1, limit_s / 5);
+  struct sigaction sa;
+  memset(&sa, 0, sizeof(sa));
+  sa.sa_handler = watchdog_tick;
+  sa.sa_flags = SA_RESTART;
+  sigaction(SIGPROF, &sa, nullptr);
+  struct itimerval tv;
+  tv.it_interval.tv_sec = 5;
+  tv.it_interval.tv_usec = 0;
+  tv.it_value = tv.it_interval;
+  setitimer(ITIMER_PROF, &tv, nullptr);
+}
+
 // ---------------------------------------------------------------- main
 
 inline int main_(int argc, char** argv, const std::vector<SubCheck>& checks) {
@@ -692,6 +737,7 @@ inline int main_(int argc, char** argv, const std::vector<SubCheck>& checks) {
     }
   }
 
+  start_watchdog();
   if (!replay.empty()) {
     FILE* f = fopen(replay.c_str(), "rb");
     if (!f) {
